@@ -1463,6 +1463,16 @@ class LoaderCriteriaOption(CriteriaOption):
             ),
         )
 
+    def _clone(self, **kw: Any) -> Any:
+        # state is held in __slots__, there is no __dict__ to copy
+        c = self.__class__.__new__(self.__class__)
+        for name in LoaderCriteriaOption.__slots__:
+            if hasattr(self, name):
+                setattr(c, name, getattr(self, name))
+        if hasattr(self, "__dict__"):
+            c.__dict__.update(self.__dict__)
+        return c
+
     def _all_mappers(self) -> Iterator[Mapper[Any]]:
         if self.entity:
             yield from self.entity.mapper.self_and_descendants
